@@ -519,4 +519,229 @@ theorem ackChunks_fields (o : Online) (a : Nat) :
   · exact ⟨rfl, rfl, rfl, rfl, rfl, Nat.le_refl _, o.resendQueue.length, by simp⟩
 
 
+/-! ## the tight delay window
+
+`unwrap c s` decodes a 10-bit counter value against the sender's absolute counter at send time; on a
+value at most 1023 behind it is exact. -/
+
+theorem unwrap_eq {c q s : Nat} (h1 : q ≤ c) (h2 : c < q + 1024) (hs : s = q % 1024) : unwrap c s = q := by
+  unfold unwrap
+  rw [seqMod_eq]
+  subst hs
+  omega
+
+/-- **the acceptance lemma, tight form**: the packet was stamped `N` (every vital chunk is one of the
+sender's chunks `k` with `k < N ≤ k + 767`), the sender is at most 512 ahead of the receiver
+(`N ≤ D + 512`), and no chunk is 1024 or more behind the sequence number `D + 1` the receiver
+waited for when the packet arrived.  Scanning from any `d` reached inside this packet hands over
+exactly the next `m` chunks. -/
+theorem receive_tight (sub : List Bytes) (N D : Nat) (hN : N ≤ D + 512) :
+    ∀ (cs : List Chunk) (d : Nat) (rr : Bool), D ≤ d → (d = D ∨ d ≤ N) → d ≤ sub.length →
+      (∀ c ∈ cs, ∀ seq r, c.vital = some (seq, r) →
+        ∃ k, k < N ∧ N ≤ k + 767 ∧ D < k + 1024 ∧ IsChunk sub k seq c.data) →
+      ∃ m, d + m ≤ sub.length ∧ vitalPayloads (receiveLazy (d % 1024) cs) = (sub.drop d).take m ∧
+        (receiveEager (d % 1024) rr cs).1 = (d + m) % 1024 := by
+  intro cs
+  induction cs with
+  | nil => intro d rr _ _ hd _; exact ⟨0, by omega, by simp [receiveLazy, vitalPayloads], by simp [receiveEager]⟩
+  | cons c cs ih =>
+    intro d rr hDd hdN hd hk
+    have hk' : ∀ c' ∈ cs, ∀ seq r, c'.vital = some (seq, r) →
+        ∃ k, k < N ∧ N ≤ k + 767 ∧ D < k + 1024 ∧ IsChunk sub k seq c'.data :=
+      fun c' hc' => hk c' (List.mem_cons_of_mem _ hc')
+    unfold receiveLazy receiveEager
+    cases hv : c.vital with
+    | none =>
+      obtain ⟨m, h1, h2, h3⟩ := ih d rr hDd hdN hd hk'
+      exact ⟨m, h1, by simpa [vitalPayloads] using h2, by simpa using h3⟩
+    | some v =>
+      obtain ⟨seq, r⟩ := v
+      obtain ⟨k, hkn, hkw, hkD, hch⟩ := hk c (by simp) seq r hv
+      simp only
+      by_cases hacc : seqNext (d % 1024) = seq
+      · have hkd : k = d := by
+          have := hch.2
+          rw [seqNext_eq] at hacc
+          omega
+        subst hkd
+        have hks : k < sub.length := (List.getElem?_eq_some_iff.mp hch.1).1
+        have h1 : (seqUpdate (k % 1024) seq).2 = .current := (seqUpdate_snd _ _).mpr hacc
+        have h2 : (seqUpdate (k % 1024) seq).1 = (k + 1) % 1024 := by
+          rw [seqUpdate_fst, if_pos hacc, hch.2]
+        obtain ⟨m, hm1, hm2, hm3⟩ := ih (k + 1) (rr || (seqUpdate (k % 1024) seq).2 != .current) (by omega)
+          (Or.inr (by omega)) (by omega) hk'
+        refine ⟨m + 1, by omega, ?_, ?_⟩
+        · simp only [h1, if_true, vitalPayloads]
+          rw [h2, hm2]
+          rw [List.drop_eq_getElem_cons hks, List.take_succ_cons]
+          have := hch.1
+          rw [List.getElem?_eq_getElem hks] at this
+          injection this with this
+          rw [this]
+        · rw [h2, hm3]; congr 1; omega
+      · have h1 : (seqUpdate (d % 1024) seq).2 ≠ .current := fun h => hacc ((seqUpdate_snd _ _).mp h)
+        have h2 : (seqUpdate (d % 1024) seq).1 = d % 1024 := by rw [seqUpdate_fst, if_neg hacc]
+        obtain ⟨m, hm1, hm2, hm3⟩ := ih d (rr || (seqUpdate (d % 1024) seq).2 != .current) hDd hdN hd hk'
+        refine ⟨m, hm1, ?_, ?_⟩
+        · simp only [h1, if_false]; exact hm2
+        · rw [h2]; exact hm3
+
+/-! ## the sender side of one endpoint, as one predicate -/
+
+/-- what the invariant says about an online state as the *sender* of the vital chunks `sub` (and
+non-vital chunks `nv`), of which the peer has been handed the first `d` -/
+structure SendOk (cfg : Cfg) (o : Online) (sub nv : List Bytes) (d : Nat) : Prop where
+  inv : o.Inv cfg
+  seq : o.sequence = sub.length % 1024
+  qlen : o.resendQueue.length ≤ 512
+  qwin : sub.length ≤ d + o.resendQueue.length
+  q : QueueOk sub o.resendQueue
+  pk : PacketOk sub sub.length o.packet.chunks
+  pknv : NvOk nv o.packet.chunks
+
+/-- what the invariant says about freshly emitted chunk packets -/
+def FlsOk (sub nv : List Bytes) (ack : Nat) (fl : List Flushed) : Prop :=
+  ∀ f ∈ fl, FlOk sub sub.length f ∧ NvOk nv f.chunks ∧ f.ack = ack
+
+theorem SendOk.new (cfg : Cfg) : SendOk cfg .new [] [] 0 := by
+  refine ⟨Online.new_inv cfg, rfl, by simp [Online.new], by simp [Online.new], ?_, PacketOk.nil _ _, ?_⟩
+  · intro i c h; simp [Online.new] at h
+  · intro c hc; simp [Online.new, PacketContents.empty] at hc
+
+theorem SendOk.mono {cfg : Cfg} {o : Online} {sub nv : List Bytes} {d d' : Nat} (h : SendOk cfg o sub nv d)
+    (hd : d ≤ d') : SendOk cfg o sub nv d' :=
+  ⟨h.inv, h.seq, h.qlen, by have := h.qwin; omega, h.q, h.pk, h.pknv⟩
+
+/-- the receive-side fields are not looked at -/
+theorem SendOk.setAck {cfg : Cfg} {o : Online} {sub nv : List Bytes} {d : Nat} (h : SendOk cfg o sub nv d)
+    (a : Nat) (rr : Bool) : SendOk cfg { o with ack := a, requestResend := rr } sub nv d :=
+  ⟨⟨h.inv.pn, h.inv.pnv, h.inv.nv, h.inv.cnt, h.inv.size, h.inv.data, h.inv.rq⟩, h.seq, h.qlen, h.qwin, h.q, h.pk, h.pknv⟩
+
+theorem SendOk.flush {cfg : Cfg} {o : Online} {sub nv : List Bytes} {d : Nat} (h : SendOk cfg o sub nv d) :
+    SendOk cfg o.flush.1 sub nv d ∧ FlsOk sub nv o.ack o.flush.2 ∧ o.flush.1.ack = o.ack := by
+  refine ⟨⟨Online.flush_inv h.inv, by rw [Online.flush_sequence]; exact h.seq,
+    by rw [Online.flush_resendQueue]; exact h.qlen, by rw [Online.flush_resendQueue]; exact h.qwin,
+    by rw [Online.flush_resendQueue]; exact h.q, ?_, ?_⟩, flush_fl h.inv h.pk h.pknv, Online.flush_ack o⟩
+  · rw [Online.flush_packet_nil h.inv]; exact PacketOk.nil _ _
+  · rw [Online.flush_packet_nil h.inv]; intro c hc; simp at hc
+
+theorem SendOk.resend {cfg : Cfg} (hc : cfg.Ok) {o : Online} {sub nv : List Bytes} {d : Nat}
+    (h : SendOk cfg o sub nv d) {now : Nat} {send : Timeout} {o' : Online} {send' : Timeout} {fl : List Flushed}
+    (he : o.resend cfg now send = .ok (o', send', fl)) :
+    SendOk cfg o' sub nv d ∧ FlsOk sub nv o.ack fl ∧ o'.ack = o.ack := by
+  obtain ⟨f1, f2, f3, f4, f5, f6, f7, f8⟩ := resend_facts hc h.inv h.q h.qlen h.pk h.pknv now send he
+  exact ⟨⟨f1, by rw [f2]; exact h.seq, by rw [f4]; exact h.qlen, by rw [f4]; exact h.qwin, f5, f6, f7⟩, f8, f3⟩
+
+/-- `send`: a refused payload changes nothing; an accepted one is queued (after a flush if it did not
+fit).  A vital chunk needs H1. -/
+theorem SendOk.send {cfg : Cfg} (hc : cfg.Ok) {o : Online} {sub nv : List Bytes} {d : Nat}
+    (h : SendOk cfg o sub nv d) {now : Nat} {data : Bytes} {vital : Bool}
+    {o' : Online} {r : SendRes} {fl : List Flushed}
+    (he : o.send cfg now data vital = .ok (o', r, fl)) :
+    (r = .tooLongData ∧ o' = o ∧ fl = []) ∨
+    (r = .ok ∧ FlsOk sub nv o.ack fl ∧ o'.ack = o.ack ∧
+      (vital = false → SendOk cfg o' sub (nv ++ [data]) d) ∧
+      (vital = true → o.resendQueue.length < 512 → SendOk cfg o' (sub ++ [data]) nv d)) := by
+  rcases Online.send_spec hc h.inv now data vital with ⟨_, hs⟩ | ⟨hacc, hs⟩
+  · rw [hs] at he
+    injection he with he; injection he with e1 e2; injection e2 with e2 e3
+    exact Or.inl ⟨e2.symm, e1.symm, e3.symm⟩
+  · rw [hs] at he
+    injection he with he; injection he with e1 e2; injection e2 with e2 e3
+    right
+    refine ⟨e2.symm, ?_⟩
+    have key : ∃ (ob : Online) (fl0 : List Flushed),
+        ob = (if o.packet.canFit data.length vital = true then o else o.flush.1) ∧
+        fl0 = (if o.packet.canFit data.length vital = true then [] else o.flush.2) ∧
+        SendOk cfg ob sub nv d ∧ ob.ack = o.ack ∧ ob.sequence = o.sequence ∧ ob.resendQueue = o.resendQueue ∧
+        FlsOk sub nv o.ack fl0 ∧ (ob.packet.canFit data.length vital = true ∨ ob.packet.chunks = []) := by
+      by_cases hf : o.packet.canFit data.length vital = true
+      · exact ⟨o, [], by simp [hf], by simp [hf], h, rfl, rfl, rfl, by intro f hf; simp at hf, Or.inl hf⟩
+      · obtain ⟨a, b, c⟩ := h.flush
+        exact ⟨o.flush.1, o.flush.2, by simp [hf], by simp [hf], a, c, Online.flush_sequence _,
+          Online.flush_resendQueue _, b, Or.inr (Online.flush_packet_nil h.inv)⟩
+    obtain ⟨ob, fl0, hob, hfl0, bok, back, bseq, bq, bfl, hfit⟩ := key
+    rw [← hob] at e1
+    rw [← hfl0] at e3
+    subst e1 e3
+    have qinv := Online.queued_inv bok.inv now data vital hacc hfit
+    refine ⟨bfl, ?_, ?_, ?_⟩
+    · cases vital <;> simp [Online.queued, back]
+    · intro hv
+      subst hv
+      refine ⟨qinv, ?_, ?_, ?_, ?_, ?_, ?_⟩
+      · simp [Online.queued]; exact bok.seq
+      · simp [Online.queued]; exact bok.qlen
+      · simp [Online.queued]; exact bok.qwin
+      · simp [Online.queued]; exact bok.q
+      · simp [Online.queued]; exact bok.pk.appendNonvital data
+      · simp only [Online.queued, Bool.false_eq_true, if_false]
+        intro c hcm hv
+        rcases List.mem_append.mp hcm with hcm | hcm
+        · exact List.mem_append_left _ (bok.pknv c hcm hv)
+        · simp at hcm; subst hcm; simp
+    · intro hv hq512
+      subst hv
+      have hseq' : seqNext ob.sequence = (sub.length + 1) % 1024 := by
+        rw [bok.seq, seqNext_eq]; omega
+      refine ⟨qinv, ?_, ?_, ?_, ?_, ?_, ?_⟩
+      · simp [Online.queued, hseq']
+      · simp [Online.queued, bq]; omega
+      · simp [Online.queued, bq]; have := h.qwin; omega
+      · simp only [Online.queued, if_true, hseq']
+        exact bok.q.push _ data
+      · simp only [Online.queued, if_true, hseq', List.length_append, List.length_singleton]
+        exact bok.pk.submit data false
+      · simp only [Online.queued, if_true]
+        intro c hcm hv
+        rcases List.mem_append.mp hcm with hcm | hcm
+        · exact bok.pknv c hcm hv
+        · simp at hcm; subst hcm; simp at hv
+
+/-- processing an ack `dS mod 1024` that is at most 1023 behind the own counter -/
+theorem SendOk.ack {cfg : Cfg} {o : Online} {sub nv : List Bytes} {d : Nat} (h : SendOk cfg o sub nv d)
+    (hd : d ≤ sub.length) {dS : Nat} (h1 : dS ≤ d) (hwin : sub.length < dS + 1024) :
+    SendOk cfg (o.ackChunks (dS % 1024)) sub nv d ∧ (o.ackChunks (dS % 1024)).ack = o.ack := by
+  obtain ⟨ka, ks, kp, kpn, krr, kql, ki, kq⟩ := ackChunks_fields o (dS % 1024)
+  refine ⟨⟨Online.ackChunks_inv h.inv _, by rw [ks]; exact h.seq, Nat.le_trans kql h.qlen,
+    ackChunks_window h.q h.qlen dS d h1 hd hwin h.qwin, by rw [kq]; exact h.q.take ki,
+    by rw [kp]; exact h.pk, by rw [kp]; exact h.pknv⟩, ka⟩
+
+theorem feedAck_eq {o o1 : Online} {a : Nat} (h : o.feedAck a = .ok o1) : o1 = o.ackChunks a := by
+  unfold Online.feedAck at h
+  split at h
+  · cases h
+  · injection h with h; exact h.symm
+
+/-- `receive` opened: the optional resend, then the two scans from the same ack -/
+theorem SendOk.receive {cfg : Cfg} (hc : cfg.Ok) {o : Online} {sub nv : List Bytes} {d : Nat}
+    (h : SendOk cfg o sub nv d) {now : Nat} {send : Timeout} {rr : Bool} {cs : List Chunk}
+    {o2 : Online} {send2 : Timeout} {fl : List Flushed} {evs : List Event}
+    (he : o.receive cfg now send rr cs = .ok (o2, send2, fl, evs)) :
+    SendOk cfg o2 sub nv d ∧ FlsOk sub nv o.ack fl ∧
+      ∃ rr0, o2.ack = (receiveEager o.ack rr0 cs).1 ∧ evs = receiveLazy o.ack cs := by
+  unfold Online.receive at he
+  cases hrr : rr with
+  | false =>
+    simp only [hrr, Bool.false_eq_true, if_false] at he
+    split at he
+    · cases he
+    · injection he with he; injection he with e1 e2; injection e2 with e2 e3; injection e3 with e3 e4
+      subst e1 e3
+      exact ⟨h.setAck _ _, by intro f hf; simp at hf, o.requestResend, rfl, e4.symm⟩
+  | true =>
+    simp only [hrr, if_true] at he
+    cases hrs : o.resend cfg now send with
+    | error e => rw [hrs] at he; cases he
+    | ok r2 =>
+      obtain ⟨o1', s1', fl1⟩ := r2
+      rw [hrs] at he
+      simp only at he
+      split at he
+      · cases he
+      · injection he with he; injection he with e1 e2; injection e2 with e2 e3; injection e3 with e3 e4
+        subst e1 e3
+        obtain ⟨a, b, c⟩ := h.resend hc hrs
+        exact ⟨a.setAck _ _, b, o1'.requestResend, by simp only [c], by rw [← c]; exact e4.symm⟩
+
 end Tw.NetSim
